@@ -269,6 +269,19 @@ class Exec:
             return [(("bv", "(bvadd %s %s)" % (smt_of(a[0]), smt_of(a[1]))), path)]
         if re.search(r"<impl isize>::wrapping_sub$|<impl usize>::wrapping_sub$", c):
             return [(("bv", "(bvsub %s %s)" % (smt_of(a[0]), smt_of(a[1]))), path)]
+        if c.endswith("<impl usize>::saturating_add_signed"):
+            x, y = smt_of(a[0]), smt_of(a[1])
+            sm = "(bvadd %s %s)" % (x, y)
+            up = "(ite (bvult %s %s) %s %s)" % (sm, x, bv((1 << 64) - 1), sm)      # y >= 0: wrapped => MAX
+            dn = "(ite (bvugt %s %s) %s %s)" % (sm, x, bv(0), sm)                   # y < 0: wrapped => 0
+            return [(("bv", "(ite (bvsge %s %s) %s %s)" % (y, bv(0), up, dn)), path)]
+        if c.endswith("<impl usize>::saturating_add"):
+            x, y = smt_of(a[0]), smt_of(a[1])
+            sm = "(bvadd %s %s)" % (x, y)
+            return [(("bv", "(ite (bvult %s %s) %s %s)" % (sm, x, bv((1 << 64) - 1), sm)), path)]
+        if c.endswith("<impl usize>::saturating_sub"):
+            x, y = smt_of(a[0]), smt_of(a[1])
+            return [(("bv", "(ite (bvult %s %s) %s (bvsub %s %s))" % (x, y, bv(0), x, y)), path)]
         if c.endswith("<impl isize>::unsigned_abs"):
             x = smt_of(a[0])
             return [(("bv", "(ite (bvslt %s %s) (bvneg %s) %s)" % (x, bv(0), x, x)), path)]
